@@ -24,7 +24,7 @@ import (
 
 func TestMain(m *testing.M) { stats.Main(m, "C18") }
 
-const rule = "rapid: payload kinds {plain JSON value, implements ID (incl. \"\"), implements Data (incl. nil), both} x Format {unset, json, text, invalid} x Source {url, nil, empty} x Schema {unset, url, empty} x Signer {nil, recording (signatures with control / quote / non-printable characters), failing, panicking} x listed/unlisted event type x predicate {nil,true,false,error} x event types with special characters; oracle = parse the stored document back (members, data JSON-equal to the payload/Data(), content type, schema, id, time), serialized decodes to exactly the bytes the signer was handed = the unsigned document, serialized_hmac = the signer's result, failing signer => error and nothing forwarded, unlisted types never signed; non-trivial = signed case with Data/ID payload, or failing signer on a listed type; distinct = case descriptor"
+const rule = "rapid: payload kinds {plain JSON value, implements ID (incl. \"\"), implements Data (incl. nil), both, nil pointer / nil map of a type whose methods work on the nil value} x Format {unset, json, text, invalid} x Source {url, nil, empty} x Schema {unset, url, empty} x Signer {nil, recording (signatures with control / quote / non-printable characters), failing, panicking} x listed/unlisted event type x predicate {nil,true,false,error} x event types with special characters; oracle = parse the stored document back (members, data JSON-equal to the payload/Data(), content type, schema, id, time), serialized decodes to exactly the bytes the signer was handed = the unsigned document, serialized_hmac = the signer's result, failing signer => error and nothing forwarded, unlisted types never signed; non-trivial = signed case with Data/ID payload, or failing signer on a listed type; distinct = case descriptor"
 
 type idOnly struct {
 	V  interface{} `json:"v"`
@@ -78,6 +78,25 @@ func jsonEq(a, b []byte) bool {
 
 // earlier keeps the documents of the last few events: a later Process call must not change what was stored
 // for an earlier event (buffers recycled between calls, ...).
+// nilSafe: methods with pointer receivers that work on a nil receiver; mapPayload: a named map type with methods.
+// A nil value of such a type is a payload that implements the optional interfaces like any other.
+var nilPayloadID string
+
+type nilSafe struct{ X int }
+
+func (p *nilSafe) ID() string { return nilPayloadID }
+func (p *nilSafe) Data() interface{} {
+	if p == nil {
+		return map[string]interface{}{"receiver": "nil"}
+	}
+	return p.X
+}
+
+type mapPayload map[string]interface{}
+
+func (m mapPayload) ID() string        { return nilPayloadID }
+func (m mapPayload) Data() interface{} { return map[string]interface{}{"entries": len(m)} }
+
 type earlierDoc struct {
 	ev   *eventlogger.Event
 	key  string
@@ -109,7 +128,7 @@ func TestC18CloudEvents(t *testing.T) {
 	rapid.Check(t, func(t *rapid.T) {
 		caseNo++
 		d := jsonval.Gen(t, rapid.IntRange(0, 3).Draw(t, "depth"), false)
-		kind := rapid.SampledFrom([]string{"plain", "plain", "id", "idEmpty", "data", "dataNil", "both"}).Draw(t, "payloadKind")
+		kind := rapid.SampledFrom([]string{"plain", "plain", "id", "idEmpty", "data", "dataNil", "both", "nilPointerWithMethods", "nilMapWithMethods", "nilPointerEmptyID"}).Draw(t, "payloadKind")
 		format := rapid.SampledFrom([]cloudevents.Format{"", "", cloudevents.FormatJSON, cloudevents.FormatText, cloudevents.FormatText, "yaml"}).Draw(t, "format")
 		source := rapid.SampledFrom([]string{"url", "url", "url", "url", "nil", "empty", "blank"}).Draw(t, "source")
 		schema := rapid.SampledFrom([]string{"unset", "unset", "url", "empty", "blank"}).Draw(t, "schema")
@@ -152,6 +171,15 @@ func TestC18CloudEvents(t *testing.T) {
 			if twin == nil {
 				hasData = false
 			}
+		case "nilPointerWithMethods":
+			nilPayloadID = fixedID
+			payload, wantID, wantData = (*nilSafe)(nil), fixedID, map[string]interface{}{"receiver": "nil"}
+		case "nilMapWithMethods":
+			nilPayloadID = fixedID
+			payload, wantID, wantData = mapPayload(nil), fixedID, map[string]interface{}{"entries": 0}
+		case "nilPointerEmptyID":
+			nilPayloadID = ""
+			payload = (*nilSafe)(nil)
 		}
 		f := &cloudevents.FormatterFilter{Format: format}
 		switch source {
@@ -238,7 +266,7 @@ func TestC18CloudEvents(t *testing.T) {
 			t.Fatalf("VIOLATION C18: Process panicked: %v\ncase: %s", err, desc)
 		}
 
-		invalid := format == "yaml" || source != "url" || schema == "empty" || schema == "blank" || kind == "idEmpty"
+		invalid := format == "yaml" || source != "url" || schema == "empty" || schema == "blank" || kind == "idEmpty" || kind == "nilPointerEmptyID"
 		if invalid {
 			if err == nil || out != nil {
 				t.Fatalf("VIOLATION C18: invalid configuration / empty ID accepted (event=%v err=%v)\ncase: %s", out != nil, err, desc)
@@ -448,7 +476,7 @@ func TestC18CloudEvents(t *testing.T) {
 // TestC18Reuse: one long-lived FormatterFilter whose exported Source / Schema / Format / SignEventTypes are
 // re-assigned between events; every event is judged against the configuration in force when it was processed.
 func TestC18Reuse(t *testing.T) {
-	sec := stats.Sec("reuse", "rapid: one FormatterFilter processes 2-6 events; between events its exported Source, Schema, Format and SignEventTypes are re-assigned (also back and forth, also to nil); oracle = the stored document reflects the configuration in force for that event (source, dataschema presence and value, content type, format key, signed iff listed); non-trivial = a field was changed between two events; distinct = history descriptor")
+	sec := stats.Sec("reuse", "rapid: one FormatterFilter processes 2-6 events; between events its exported Source, Schema, Format and SignEventTypes are re-assigned or, for the URLs, edited in place through the pointer the formatter holds (also back and forth, also to nil); oracle = the stored document reflects the configuration in force for that event (source, dataschema presence and value, content type, format key, signed iff listed); non-trivial = a field was changed between two events; distinct = history descriptor")
 	rapid.Check(t, func(t *rapid.T) {
 		srcs := []string{"https://a.example/src", "https://b.example/src?x=1"}
 		schemas := []string{"", "https://a.example/schema", "https://b.example/schema"}
@@ -462,11 +490,18 @@ func TestC18Reuse(t *testing.T) {
 			sch := rapid.SampledFrom(schemas).Draw(t, "schema")
 			fm := rapid.SampledFrom([]cloudevents.Format{"", cloudevents.FormatJSON, cloudevents.FormatText}).Draw(t, "format")
 			listed := rapid.Bool().Draw(t, "listed")
-			f.Source, _ = url.Parse(src)
+			inPlace := rapid.Bool().Draw(t, "editInPlace") // the caller owns the URL values: edit them through the pointer the formatter holds
+			if u, _ := url.Parse(src); inPlace && f.Source != nil {
+				*f.Source = *u
+			} else {
+				f.Source = u
+			}
 			if sch == "" {
 				f.Schema = nil
+			} else if u, _ := url.Parse(sch); inPlace && f.Schema != nil {
+				*f.Schema = *u
 			} else {
-				f.Schema, _ = url.Parse(sch)
+				f.Schema = u
 			}
 			f.Format = fm
 			f.SignEventTypes = nil
@@ -474,6 +509,9 @@ func TestC18Reuse(t *testing.T) {
 				f.SignEventTypes = []string{"T"}
 			}
 			cfg := fmt.Sprintf("{src=%s schema=%q format=%q listed=%v}", src, sch, fm, listed)
+			if inPlace {
+				hist = append(hist, "(URLs edited in place)")
+			}
 			if prev != "" && prev != cfg {
 				changes++
 			}
